@@ -38,5 +38,18 @@ except TypeError:      # a tree whose protocol classes have no deferred sending 
     r = None
 if r:
     done(**r)
+if p.get("obligation") == "__bounded__" or "certificates:" in p.get("obligation", ""):
+    # the pin check stands on the fingerprint being a function of the certificate's own encoding
+    import shutil, tempfile  # noqa: E401
+    from pathlib import Path
+    from replay import tofu_bank
+    _d = Path(tempfile.mkdtemp(prefix="pyvc_fp_"))
+    try:
+        _r = tofu_bank.fingerprint_cases(_d)
+    finally:
+        shutil.rmtree(_d, ignore_errors=True)
+    if _r:
+        done(confirmed=True, input={k: v for k, v in _r.items() if k != "violated"}, observed=dict(violated=[_r["violated"]]),
+             clause="a certificate passes pin verification only if ITS OWN fingerprint equals the pin (nothing is sent otherwise)")
 ops = ("upload", "get") if "upload" in p.get("obligation", "").split("/")[0] else ("get", "upload")
 done(**session_bank.bank("C11", ops))
